@@ -46,5 +46,5 @@ def replay(ctx, rp):
     c = rp.get("failure", {}).get("case")
     if not c:
         return {"fails": False, "note": "replay file carries no concrete input", "payload": rp}
-    r = X.run(ctx, "c01", 1, cases=[c])
+    r = X.run(ctx, "c01", 1, cases=[c], ref=ctx.tables_changed(SECTIONS))
     return {"fails": bool(r["failures"]), "failures": r["failures"]}
